@@ -5,6 +5,8 @@ cooperative-selector event loop (`cooploop.CoopLoop`):
 * `srv_stream`:  `AsyncServer.stream`  vs  `Server.stream`   (thread servlet, same data, preprocessor, flags)
 * `srv_call`:    concurrent `AsyncServer.call` (gather)  vs  concurrent `Server.call` (caller threads)
 * `apmap_thread`: `AsyncParmapper(executor='thread')`  vs  `Stream.parmap(executor='thread')`
+* `pmap_async`:  `Stream.parmap(<async worker>)` = `ParmapperAsync` (sync environment, worker coroutines on
+                 a background loop thread)  vs  `Stream.parmap(<sync worker>, executor='thread')`
 
 Each case is run twice under `detsched.run` with the case's chooser — once through the async
 variant (event loop in the scheduler-managed main thread, servlet/pool threads scheduled like any
@@ -25,6 +27,8 @@ from mpservice._common import StopRequested
 from mpservice.mpserver import AsyncServer, Server, ThreadServlet, Worker
 from mpservice.streamer import Stream
 from mpservice.streamer._streamer_async import AsyncParmapper
+
+cooploop.install()      # loops created by the code under test (ParmapperAsync) are cooperative, virtual-time loops
 
 MODEL = None
 BASE = 100
@@ -49,12 +53,12 @@ class PreError(Exception):
 
 
 def gen_case(rng: random.Random, tier: str, bias: str = ''):
-    kind = rng.choice(['srv_stream', 'srv_stream', 'srv_call', 'apmap_thread'])
+    kind = rng.choice(['srv_stream', 'srv_stream', 'srv_call', 'apmap_thread', 'pmap_async'])
     n = rng.choice([0, 1, 2, 3, 4, 5, 7])
     if kind == 'srv_call':
         n = max(n, 1)
     conc = rng.choice([1, 2, 3])
-    cap = rng.choice([1, 2, 3, 5]) if kind != 'apmap_thread' else 2 * conc
+    cap = rng.choice([1, 2, 3, 5]) if kind not in ('apmap_thread', 'pmap_async') else 2 * conc
     pre = kind != 'srv_call' and rng.random() < (0.85 if bias == 'pre' else 0.5)
     ppf = rng.choice([0.15, 0.3, 0.5]) if bias == 'pre' else 0.15
     pf = sorted(i for i in range(n) if pre and rng.random() < ppf)
@@ -159,6 +163,17 @@ def _one_side(case, asynchronous):
         def call(self, x):
             return compute(x)
 
+    async def acompute(x):
+        i = x - off
+        calls[i] = calls.get(i, 0) + 1
+        if not 0 <= i < n:
+            return ('fed-unprocessed-input', i)
+        for _ in range(dur[i]):
+            await asyncio.sleep(0)
+        if i in re:
+            raise WorkError(i)
+        return ('y', i)
+
     def pre(x):
         i = x - BASE
         if i in pf:
@@ -208,7 +223,12 @@ def _one_side(case, asynchronous):
             return _classify(e)
 
     def sync_main():
-        if kind == 'apmap_thread':
+        if kind == 'pmap_async' and asynchronous:
+            gen = iter(Stream(sync_src()).parmap(acompute, concurrency=case['conc'],
+                                                 return_x=case['retx'], return_exceptions=case['rexc'],
+                                                 preprocessor=prep))
+            return sync_consume(gen)
+        if kind in ('apmap_thread', 'pmap_async'):
             gen = iter(Stream(sync_src()).parmap(compute, executor='thread', concurrency=case['conc'],
                                                  return_x=case['retx'], return_exceptions=case['rexc'],
                                                  preprocessor=prep))
@@ -257,7 +277,7 @@ def _one_side(case, asynchronous):
             return ('end',)
 
     def main():
-        if not asynchronous:
+        if not asynchronous or kind == 'pmap_async':
             return sync_main()
         loop = cooploop.CoopLoop()
         try:
